@@ -35,6 +35,7 @@ type GenCfg struct {
 	EnvNs      bool
 	Req        int // percent of options marked required
 	Choices    bool
+	FlagChoice bool // also put choices on flags (accepted by the library)
 	Defaults   bool
 	Env        bool
 	OptArg     bool
@@ -279,6 +280,9 @@ func (g *declGen) opt(ns *nameSets, nsPrefix string) Opt {
 	k := o.Kind
 	if _, isInt := intBits[k.Elem()]; (isInt || k == KMapSI || k == KMapIS) && cfg.Bases && pct(t, "hasBase", 25) {
 		o.Base = rapid.SampledFrom([]int{2, 8, 16, 36, 3}).Draw(t, "base")
+	}
+	if k.IsFlag() && cfg.FlagChoice && pct(t, "flagChoice", 8) {
+		o.Choices = []string{"x"}
 	}
 	if k.IsFlag() || k.IsFunc() {
 		return o
